@@ -44,14 +44,16 @@ func GosymH_C08_file() {
 			gosym_Assert(err == nil, "seek")
 			n, err := f.Write(data)
 			gosym_Assert(err == nil && n == ln, "write-accepts-all-bytes")
-			if ln > 0 {
-				for len(model) < off+ln {
-					model = append(model, 0)
-				}
-				copy(model[off:], data)
-			} else if off > len(model) {
+			// A write at an offset beyond EOF zero-fills up to the offset first -- also when the data is
+			// empty: upstream pins that with CollectionFSSuite.TestSeekSparse (Seek past EOF, Write([]byte{}),
+			// size == offset), so the byte-array model follows it.
+			if ln == 0 && off > len(model) {
 				gosym_Reach("empty-write-beyond-eof")
 			}
+			for len(model) < off+ln {
+				model = append(model, 0)
+			}
+			copy(model[off:], data)
 		case 1: // truncate (shrink or grow with zeros)
 			n := gosym_Choice("trunc"+tag, maxOff+maxLen+1)
 			err = f.Truncate(int64(n))
